@@ -281,7 +281,7 @@ class Ctx:
             "wall_s": round(time.time() - self.t0, 2),
             "violations": len(real),
         }
-        if self.replaying is None:
+        if self.replaying is None and not os.environ.get("NSSMON_NOEVIDENCE"):
             os.makedirs(os.path.join(ROOT, "evidence"), exist_ok=True)
             p = os.path.join(ROOT, "evidence", f"{self.pid}.json")
             with open(p + ".tmp", "w") as f:
